@@ -6,7 +6,7 @@ T=$(mktemp -d /tmp/lunar-neutral-XXXX)
 trap 'rm -rf $T' EXIT
 rsync -a --exclude=.git /repo/ $T/tree/
 ./bin/renamer -repo $T/tree proxy/src/services/lunar-engine proxy/src/services/aggregation-output-plugin
-./bin/renamer -repo $T/tree -shape eq,else,msg,inc,ord,lit,and proxy/src/services/lunar-engine proxy/src/services/aggregation-output-plugin proxy/src/libs/toolkit-core proxy/src/libs/shared-model
+./bin/renamer -repo $T/tree -shape eq,else,msg,inc,ord,lit,and,log proxy/src/services/lunar-engine proxy/src/services/aggregation-output-plugin proxy/src/libs/toolkit-core proxy/src/libs/shared-model
 mkdir -p $T/a $T/b; cp known_findings.json $T/a; cp known_findings.json $T/b
 one() { p=$1; T=$2
   ./bin/lunarcheck -p $p -repo /repo -verif $T/a >/dev/null 2>&1
